@@ -165,7 +165,7 @@ func c11Gen(rt *rapid.T) c11Prog {
 			acc := wOp{K: "acc", S: 1, B: "new", A: fmt.Sprintf("newbie%d:%s", i, c11Password), F: gPct(rt, 75)}
 			if gPct(rt, 70) {
 				// with an address to be validated: no response can be given yet (sometimes a made-up one is)
-				acc.X = []string{fmt.Sprintf("%s:newbie%d@example.com%s", wValidatorName, i, gPick(rt, []string{"", "", "", "|123456", "|000000"}, "resp"))}
+				acc.X = []string{fmt.Sprintf("%s:newbie%d@vmail.test%s", wValidatorName, i, gPick(rt, []string{"", "", "", "|123456", "|000000"}, "resp"))}
 			}
 			p.Ops = append(p.Ops, acc)
 			if gPct(rt, 50) {
